@@ -590,7 +590,7 @@ Qed.
 Lemma unit_variant_null_den e0 i0 variant (by_type : M unit) n st st' :
   (forall st st', G slow st -> by_type st = (Ok tt, st') -> sndD n (SUnitVariant e0 i0 variant) st st') ->
   node_lim n = true -> G slow st ->
-  unit_variant_null Sc n variant by_type st = (Ok tt, st') -> sndD n (SUnitVariant e0 i0 variant) st st'.
+  unit_variant_null Sc n e0 variant by_type st = (Ok tt, st') -> sndD n (SUnitVariant e0 i0 variant) st st'.
 Proof.
   intros Hby Hn Hg E. unfold unit_variant_null in E.
   destruct n; try (eapply Hby; eauto; fail).
@@ -1716,7 +1716,7 @@ Proof.
     + apply D_leaf, L_unit_struct_null.
   - (* SUnitVariant *)
     change (ser Sc n0 (SUnitVariant e i v)) with
-      (unit_variant_null Sc n0 v
+      (unit_variant_null Sc n0 e v
         (via_union Sc n0 KUnitVariant (fun n' =>
            match n' with
            | FNull => if bytes_eqb v NULLNAME then sret tt else fail (Err EData)
